@@ -1,9 +1,9 @@
 package lincon
 
 import (
+	"fmt"
 	"go/constant"
 	"go/token"
-	"fmt"
 	"go/types"
 
 	"golang.org/x/tools/go/ssa"
@@ -525,8 +525,8 @@ func init() {
 		a.set(t1, ctx, v, AInt{konst(-1)})
 		t2 := s
 		r := a.freshFor(t2, ctx, v).(AInt)
-		t2.addLE(r.l.scale(-1))            // r >= 0
-		t2.addLE(r.l.sub(x.n).addK(1))     // r <= len-1
+		t2.addLE(r.l.scale(-1))        // r >= 0
+		t2.addLE(r.l.sub(x.n).addK(1)) // r <= len-1
 		a.addByteFact(t2, ByteFact{obj: x.obj, off: x.off.add(r.l), val: byte(cv), eq: true})
 		a.set(t2, ctx, v, r)
 		return []*State{t1, t2}
@@ -620,8 +620,8 @@ func init() {
 		},
 		"(*strings.Builder).Grow": growPre,
 		"(*bytes.Buffer).Grow":    growPre,
-		"(net.IP).To4":  ipTo(4),
-		"(net.IP).To16": ipTo(16),
+		"(net.IP).To4":            ipTo(4),
+		"(net.IP).To16":           ipTo(16),
 		"(time.Duration).String": func(a *Analyzer, ctx int, v *ssa.Call, s *State) []*State {
 			r := a.freshFor(s, ctx, v).(AStr)
 			s.addLE(konst(2).sub(r.n))
